@@ -357,3 +357,34 @@ func valueSetsAssuming(fn *ssa.Function, typ types.Type, is tracker, assume map[
 	}
 	return in
 }
+
+// defRange: the values v can have by construction, looking through value-preserving conversions and
+// phis (the union over the incoming values): a phi of uint8 and uint32 lengths widened to int64 is
+// never negative although its type admits negative values.
+func defRange(v ssa.Value, depth int) iset {
+	if depth > 6 {
+		return typeRange(v.Type())
+	}
+	switch x := v.(type) {
+	case *ssa.Const:
+		if k, ok := constInt(x); ok {
+			return rng(k, k)
+		}
+	case *ssa.Convert:
+		if wideningConv(x) {
+			return defRange(x.X, depth+1).intersect(typeRange(x.Type()))
+		}
+	case *ssa.Phi:
+		var out iset
+		for _, e := range x.Edges {
+			if e == ssa.Value(x) {
+				continue
+			}
+			out = out.union(defRange(e, depth+1))
+		}
+		if !out.empty() {
+			return out.intersect(typeRange(x.Type()))
+		}
+	}
+	return typeRange(v.Type())
+}
